@@ -22,7 +22,7 @@ for f in os.listdir(os.path.join(wt, 'seed')):
 base = subprocess.check_output(['git', '-C', '/repo', 'rev-parse', '--short', 'HEAD'], text=True).strip()
 meta = {
     'property': prop,
-    'round': 2 if sid.endswith('-2') else (3 if sid.endswith('-3') else 1),
+    'round': (int(sid.rsplit('-', 1)[1]) if '-' in sid and sid.rsplit('-', 1)[1].isdigit() else 1),
     'needs': needs,
     'sites': sites,
     'caught_by': [r for r in rules.split(',') if r],
